@@ -1,0 +1,15 @@
+//! Verification hook (cargo feature `verif`): entry counts of every map of this index.
+//! The exhaustive destructuring makes a new field break this build until it is accounted for.
+use super::LuaDependencyIndex;
+
+impl LuaDependencyIndex {
+    pub fn verif_report(&self) -> Vec<(&'static str, usize)> {
+        let Self {
+            dependencies,
+        } = self;
+        vec![
+            ("dependency.dependencies", dependencies.len()),
+            ("dependency.dependencies.items", dependencies.values().map(|v| v.len()).sum()),
+        ]
+    }
+}
